@@ -16,6 +16,25 @@ pub struct DatumDeserializer<'r, 's, R> {
 	pub(super) allowed_depth: AllowedDepth,
 }
 
+/// Decimals deserialize as integers when hinted that an integer is expected,
+/// that goes for all integer types: the visitors of the smaller ones accept to be
+/// given a larger one (checking that it fits)
+macro_rules! deserialize_smaller_integers_as {
+	($($($smaller: ident)+ => $larger: ident,)+) => {
+		$($(
+			fn $smaller<V>(self, visitor: V) -> Result<V::Value, Self::Error>
+			where
+				V: Visitor<'de>,
+			{
+				match *self.schema_node {
+					SchemaNode::Decimal(_) | SchemaNode::BigDecimal => self.$larger(visitor),
+					_ => self.deserialize_any(visitor),
+				}
+			}
+		)+)+
+	};
+}
+
 impl<'de, R: ReadSlice<'de>> Deserializer<'de> for DatumDeserializer<'_, '_, R> {
 	type Error = DeError;
 
@@ -86,8 +105,13 @@ impl<'de, R: ReadSlice<'de>> Deserializer<'de> for DatumDeserializer<'_, '_, R> 
 	}
 
 	serde::forward_to_deserialize_any! {
-		bool i8 i16 i32 u8 u16 u32 f32 char
+		bool f32 char
 		unit unit_struct
+	}
+
+	deserialize_smaller_integers_as! {
+		deserialize_i8 deserialize_i16 deserialize_i32 => deserialize_i64,
+		deserialize_u8 deserialize_u16 deserialize_u32 => deserialize_u64,
 	}
 
 	fn deserialize_newtype_struct<V>(
